@@ -8,6 +8,17 @@ Import ListNotations.
 Lemma sq_exact_pow : forall n d, sq_exact (SqPowF n d) = true -> (0 < d /\ n = 2 * d)%Z.
 Proof. intros n d H. unfold sq_exact in H. apply andb_true_iff in H as [H1 H2]. apply Z.ltb_lt in H1. apply Z.eqb_eq in H2. auto. Qed.
 
+Lemma rms_check_c05_sound : forall x s c e ax st,
+  rms_check_c05 x s c e = Some (ax, st) -> ax = (-1)%Z /\ (st = 1 \/ st = 11)%Z /\ e = true
+  /\ is_float_type x = true /\ is_float_type s = true.
+Proof.
+  intros x s c e ax st. unfold rms_check_c05.
+  destruct e; simpl; [|discriminate].
+  destruct (is_float_type x) eqn:Hx; simpl; [|discriminate].
+  destruct (is_float_type s) eqn:Hs; simpl; [|discriminate].
+  destruct c as [c|]; [destruct c | destruct x]; simpl; intro H; inversion H; auto 10.
+Qed.
+
 Section NormLaws.
   Variable F : Type.
   Variable o : fops F.
@@ -30,10 +41,10 @@ Section NormLaws.
     ln_host_sem F o sqrt powr h x scale eps = ln_spec F o sqrt x scale None eps /\
     ax = (-1)%Z /\ (st = 1 \/ st = 11)%Z /\ lh_eps_singleton h = true.
   Proof.
-    intros h ax st x scale eps H. unfold ln_fires in H.
+    intros h ax st x scale eps H. unfold ln_fires, ln_fires_v in H. cbv beta iota delta [sq_ok] in H.
     destruct (olz_is (lh_axes1 h) (-1) && olz_is (lh_axes2 h) (-1) && oz_is (lh_keepdims1 h) 1 && oz_is (lh_keepdims2 h) 1 && sq_exact (lh_sq h)) eqn:E; [|discriminate].
     apply andb_true_iff in E as [_ Esq].
-    destruct (lh_xdt h) as [d|]; [|discriminate]. unfold ln_check_rewrite in H.
+    destruct (lh_xdt h) as [d|]; [|discriminate]. unfold ln_check_c05 in H.
     destruct (is_fp_type d && lh_eps_singleton h) eqn:E2; [|discriminate]. apply andb_true_iff in E2 as [Ed Ee].
     inversion H; subst. split; [|split; [reflexivity|split; [destruct d; cbn in Ed; try discriminate; auto|exact Ee]]].
     unfold ln_host_sem. rewrite (sq_sem_exact_mul _ _ Esq).
@@ -47,11 +58,11 @@ Section NormLaws.
     rms_host_sem F o sqrt powr h x scale eps = rms_spec F o sqrt x scale eps /\
     ax = (-1)%Z /\ (st = 1 \/ st = 11)%Z /\ rh_eps_float_singleton h = true.
   Proof.
-    intros h ax st x scale eps H. unfold rms_fires in H.
+    intros h ax st x scale eps H. unfold rms_fires, rms_fires_v in H. cbv beta iota delta [sq_ok] in H.
     destruct (olz_is (rh_axes h) (-1) && oz_is (rh_keepdims h) 1 && oz_is (rh_noop h) 0 && sq_exact (rh_exp h)) eqn:E; [|discriminate].
     apply andb_true_iff in E as [_ Esq].
     destruct (rh_xdt h) as [xd|]; [|discriminate]. destruct (rh_sdt h) as [sd|]; [|discriminate].
-    destruct (rms_check_sound _ _ _ _ _ _ H) as (Hax & Hst & He & _). split; [|auto].
+    destruct (rms_check_c05_sound _ _ _ _ _ _ H) as (Hax & Hst & He & _). split; [|auto].
     rewrite <- (rms_norm_identity F o Fth sqrt (rh_mul_order h) x scale eps).
     unfold rms_host_sem, rms_pattern, rms_of.
     rewrite (sq_sem_exact_mul _ x Esq). destruct (rh_exp h) as [|n m]; [|reflexivity].
@@ -152,39 +163,130 @@ Section GqaLaws.
   Qed.
 End GqaLaws.
 
-(* OnnxGroupQueryAttention, shapes: the sound side condition pins the operand layouts the theorem above is about *)
-Lemma check_shape_len : forall b s names b', check_shape b s names = Some b' -> exists sh, s = Some sh /\ length sh = length names.
+(* the values theorem needs no positivity: with Hkv = 0 or G = 0 there is no head *)
+Section GqaTotal.
+  Variable A : Type.
+  Variable d0 : A.
+  Variable attn : list (list A) -> list (list A) -> list (list A) -> option (list (list A)) -> list (list A).
+  Theorem gqa23_rule_sound_total : forall B S T Hkv G Dh q kseq vseq mask,
+    gqa23_host A d0 attn B S T Hkv G Dh q kseq vseq mask = gqa23_fused A d0 attn B S T Hkv G Dh q kseq vseq mask.
+  Proof.
+    intros B S T Hkv G Dh q kseq vseq mask.
+    destruct (Nat.eq_dec Hkv 0) as [->|HH]; [|destruct (Nat.eq_dec G 0) as [->|HG]].
+    - unfold gqa23_host, gqa23_fused, attention23. apply stack_heads_ext. intros b h _ Hh. cbn in Hh. lia.
+    - unfold gqa23_host, gqa23_fused, attention23. apply stack_heads_ext. intros b h _ Hh. rewrite Nat.mul_0_r in Hh. lia.
+    - apply gqa23_rule_sound; lia.
+  Qed.
+End GqaTotal.
+
+(* OnnxGroupQueryAttention, check-sufficiency: what the shipped check establishes about the operand layouts *)
+Lemma bind_dims_bound : forall actual names b b', bind_dims b actual names = Some b' ->
+  Forall2 (fun a n => lookup b' n = Some a) actual names.
 Proof.
-  intros b s names b' H. unfold check_shape in H. destruct b as [b0|]; [|discriminate]. destruct s as [sh|]; [|discriminate].
-  exists sh. split; [reflexivity|]. eapply OV.Fusion.NormProofs.bind_dims_length; eauto.
+  induction actual as [|a at' IH]; intros [|n nt] b b' H; simpl in H; try discriminate; [constructor|].
+  destruct (lookup b n) as [w|] eqn:E.
+  - destruct (Z.eqb a w) eqn:Ea; [|discriminate]. apply Z.eqb_eq in Ea. subst w.
+    constructor; [eapply bind_dims_preserves; eauto|eapply IH; eauto].
+  - constructor; [|eapply IH; eauto].
+    eapply bind_dims_preserves; eauto. simpl. now rewrite Nat.eqb_refl.
 Qed.
-Theorem gqa_fires_shapes : forall h, gqa_fires h = true ->
-  gqa_fires_impl h = true /\
-  (exists e, gh_expand_key h = Some e /\ length e = 5) /\ (exists e, gh_expand_value h = Some e /\ length e = 5) /\
-  (gh_is_causal h = None \/ gh_is_causal h = Some 0%Z).
+Lemma check_all_none : forall l, check_all None l = None.
+Proof. induction l as [|[sh names] t IH]; [reflexivity|]. cbn. exact IH. Qed.
+Lemma check_all_preserves : forall l b bF k v, check_all (Some b) l = Some bF -> lookup b k = Some v -> lookup bF k = Some v.
 Proof.
-  intros h H. unfold gqa_fires in H.
-  destruct (check_shape (check_shape (gqa_bindings_impl h) (gh_expand_key h) [0; 4; 7; 6; 3]) (gh_expand_value h) [0; 4; 7; 6; 3]) as [b|] eqn:E8; [|discriminate].
-  destruct (check_shape (gqa_bindings_impl h) (gh_expand_key h) [0; 4; 7; 6; 3]) as [b7|] eqn:E7; [|discriminate].
-  destruct (check_shape_len _ _ _ _ E8) as (ev & Hev & Lev). destruct (check_shape_len _ _ _ _ E7) as (ek & Hek & Lek).
-  apply andb_true_iff in H as [_ Hc].
-  split; [unfold gqa_fires_impl; destruct (gqa_bindings_impl h); [reflexivity|discriminate]|].
-  split; [eauto|]. split; [eauto|].
+  induction l as [|[sh names] t IH]; intros b bF k v H L; cbn [check_all] in H; [inversion H; subst; exact L|].
+  destruct (check_shape (Some b) sh names) as [b1|] eqn:E; [|rewrite check_all_none in H; discriminate].
+  eapply IH; eauto. eapply check_shape_preserves; eauto.
+Qed.
+Definition bound_in (bF : bindings) (p : option (list Z) * list nat) : Prop :=
+  exists s, fst p = Some s /\ Forall2 (fun a n => lookup bF n = Some a) s (snd p).
+Lemma check_all_bound : forall l b bF, check_all (Some b) l = Some bF -> Forall (bound_in bF) l.
+Proof.
+  induction l as [|[sh names] t IH]; intros b bF H; cbn [check_all] in H; [constructor|].
+  destruct (check_shape (Some b) sh names) as [b1|] eqn:E; [|rewrite check_all_none in H; discriminate].
+  constructor; [|eapply IH; eauto].
+  destruct sh as [s|]; [|discriminate]. cbn in E. exists s. split; [reflexivity|]. cbn [snd].
+  pose proof (bind_dims_bound _ _ _ _ E) as HF.
+  clear E. induction HF as [|a n s' names' Hl HF' IHF]; constructor; [eapply check_all_preserves; eauto|exact IHF].
+Qed.
+
+Ltac inv_forall2 :=
+  repeat match goal with
+         | H : Forall2 _ _ (_ :: _) |- _ => inversion H; clear H; subst
+         | H : Forall2 _ _ [] |- _ => inversion H; clear H; subst
+         end.
+Ltac same_lookup :=
+  repeat match goal with
+         | H1 : lookup ?b ?k = Some ?x, H2 : lookup ?b ?k = Some ?y |- _ => rewrite H1 in H2; inversion H2; clear H2; subst
+         end.
+
+(* whenever the shipped check accepts, the operands are laid out as C05_fusion_gqa_values_partial assumes:
+   Q [B,H,S,D]; K, V [B,Hkv,S,D]; past [B,Hkv,P,D]; the Expand results [B,Hkv,G,T,D]; the Reshape results [B,H,T,D];
+   H, Hkv, G static with H = Hkv * G; no causal mask requested (T = S + P is the Concat of the pattern) *)
+Theorem gqa_shipped_check_sufficient : forall h, gqa_fires h = true ->
+  exists B H S D Hkv P T G,
+    gh_query h = Some [B; H; S; D] /\ gh_key h = Some [B; Hkv; S; D] /\ gh_value h = Some [B; Hkv; S; D] /\
+    gh_past_key h = Some [B; Hkv; P; D] /\ gh_past_value h = Some [B; Hkv; P; D] /\
+    gh_present_key h = Some [B; H; T; D] /\ gh_present_value h = Some [B; H; T; D] /\
+    gh_expand_key h = Some [B; Hkv; G; T; D] /\ gh_expand_value h = Some [B; Hkv; G; T; D] /\
+    (0 <= H /\ 0 <= Hkv /\ 0 <= G /\ H = Hkv * G)%Z /\
+    (gh_is_causal h = None \/ gh_is_causal h = Some 0%Z).
+Proof.
+  intros h H. unfold gqa_fires in H. apply andb_true_iff in H as [Hc H]. apply andb_true_iff in Hc as [_ Hc].
+  destruct (check_all (Some []) (gqa_operands h ++ gqa_expands h)) as [bF|] eqn:E; [|discriminate].
+  pose proof (check_all_bound _ _ _ E) as HF. unfold gqa_operands, gqa_expands in HF. cbn [app] in HF.
+  repeat match goal with H : Forall _ (_ :: _) |- _ => inversion H; clear H; subst end.
+  repeat match goal with H : bound_in _ _ |- _ => destruct H as (? & ? & ?) end. cbn [fst snd] in *.
+  inv_forall2. same_lookup.
+  destruct (lookup bF 1) as [hq|] eqn:L1; [|discriminate]. destruct (lookup bF 4) as [hkv|] eqn:L4; [|discriminate].
+  destruct (lookup bF 7) as [g|] eqn:L7; [|discriminate]. same_lookup.
+  unfold is_static_dim in H. repeat (apply andb_true_iff in H; destruct H as [H ?]).
+  repeat match goal with H : (_ <=? _)%Z = true |- _ => apply Z.leb_le in H end.
+  match goal with H : (_ =? _)%Z = true |- _ => apply Z.eqb_eq in H end.
+  repeat match goal with H : Some _ = Some _ |- _ => inversion H; clear H; subst end.
+  do 8 eexists. repeat (split; [eassumption|]). split; [repeat split; assumption|].
   destruct (gh_is_causal h) as [v|]; [|auto]. apply Z.eqb_eq in Hc. subst. auto.
 Qed.
 
-(* the check as read is not sufficient: an Expand that broadcasts a leading group dimension ([G,B,Hkv,1,T,D]) passes it and
-   repeats the heads in the other order; is_causal = 1 passes it as well (findings C05:fusion:gqa:...) *)
+(* the shipped check implies the check it replaced *)
+Lemma check_all_app_some : forall l1 l2 b bF, check_all b (l1 ++ l2) = Some bF -> exists b1, check_all b l1 = Some b1.
+Proof.
+  induction l1 as [|[sh names] t IH]; intros l2 b bF H; cbn [check_all app] in *; [destruct b; [eauto|rewrite check_all_none in H; discriminate]|].
+  eapply IH; eauto.
+Qed.
+Theorem gqa_shipped_refines_legacy : forall h, gqa_fires h = true -> gqa_fires_impl h = true.
+Proof.
+  intros h H. unfold gqa_fires in H. apply andb_true_iff in H as [Hp H]. apply andb_true_iff in Hp as [Hp _].
+  destruct (check_all (Some []) (gqa_operands h ++ gqa_expands h)) as [bF|] eqn:E; [|discriminate].
+  destruct (check_all_app_some _ _ _ _ E) as [b1 E1]. unfold gqa_fires_impl, gqa_bindings_impl. now rewrite E1, Hp.
+Qed.
+
+(* the check before aa8c462 (legacy) was not sufficient: an Expand that broadcasts a leading group dimension ([G,B,Hkv,1,T,D])
+   passed it and repeats the heads in the other order; is_causal = 1 passed it as well (findings C05:fusion:gqa:..., fixed) *)
 Definition gqa_witness (expand : list Z) (causal : option Z) : gqa_host :=
   {| gh_query := Some [1; 4; 3; 8]%Z; gh_key := Some [1; 2; 3; 8]%Z; gh_value := Some [1; 2; 3; 8]%Z;
      gh_past_key := Some [1; 2; 2; 8]%Z; gh_past_value := Some [1; 2; 2; 8]%Z;
      gh_present_key := Some [1; 4; 5; 8]%Z; gh_present_value := Some [1; 4; 5; 8]%Z;
-     gh_expand_key := Some expand; gh_expand_value := Some expand; gh_is_causal := causal |}.
-Theorem gqa_impl_check_insufficient :
-  gqa_fires (gqa_witness [1; 2; 2; 5; 8]%Z None) = true /\
-  gqa_fires_impl (gqa_witness [2; 1; 2; 1; 5; 8]%Z None) = true /\ gqa_fires (gqa_witness [2; 1; 2; 1; 5; 8]%Z None) = false /\
-  gqa_fires_impl (gqa_witness [1; 2; 2; 5; 8]%Z (Some 1%Z)) = true /\ gqa_fires (gqa_witness [1; 2; 2; 5; 8]%Z (Some 1%Z)) = false.
+     gh_expand_key := Some expand; gh_expand_value := Some expand; gh_is_causal := causal;
+     gh_unsq_scalar2 := true; gh_concat_axis := Some (-2)%Z |}.
+Theorem gqa_legacy_check_insufficient :
+  gqa_fires_v false (gqa_witness [1; 2; 2; 5; 8]%Z None) = true /\
+  gqa_fires_v true (gqa_witness [2; 1; 2; 1; 5; 8]%Z None) = true /\ gqa_fires_v false (gqa_witness [2; 1; 2; 1; 5; 8]%Z None) = false /\
+  gqa_fires_v true (gqa_witness [1; 2; 2; 5; 8]%Z (Some 1%Z)) = true /\ gqa_fires_v false (gqa_witness [1; 2; 2; 5; 8]%Z (Some 1%Z)) = false.
 Proof. repeat split; reflexivity. Qed.
+
+(* the legacy exponent test accepted exponents that are not 2 (findings C05:fusion:{layer-norm,rms-norm}:approximate-pow-exponent, fixed);
+   the shipped one is the exact test the soundness theorems use *)
+Theorem pow_exponent_legacy_refuted :
+  sq_ok true (SqPowF 200001 100000) = true /\ sq_ok false (SqPowF 200001 100000) = false /\
+  sq_ok true (SqPowF 2001 1000) = false /\ sq_ok true (SqPowF 4 2) = true /\ sq_ok false (SqPowF 4 2) = true /\
+  (forall s, sq_ok false s = true -> sq_ok true s = true).
+Proof.
+  repeat split; try reflexivity. intros [|n d] H; [reflexivity|]. cbn in *.
+  apply andb_true_iff in H as [H1 H2]. apply Z.eqb_eq in H2. subst n. rewrite H1. cbn.
+  replace (2 * d - 2 * d)%Z with 0%Z by lia. cbn. apply Z.ltb_lt in H1.
+  apply orb_true_iff. right. apply Z.leb_le. lia.
+Qed.
 
 (* non-vacuity over Qc *)
 From Coq Require Import QArith Qcanon.
